@@ -97,14 +97,18 @@ def theorem_names(module_file):
 def audit_theorems(prop):
     """Builds AcVerif.Theorems.<prop>, lists its theorems and checks the axioms
     of each.  Returns dict(obligations, discharged, theorems, failures, log)."""
-    mod = "AcVerif.Theorems.%s" % prop
-    path = os.path.join(LEAN, "AcVerif", "Theorems", "%s.lean" % prop)
+    tdir = os.path.join(LEAN, "AcVerif", "Theorems")
+    files = sorted(f for f in os.listdir(tdir) if f.endswith(".lean") and re.match(r"^%s([A-Z][A-Za-z]*)?\.lean$" % prop, f))
     res = {"obligations": 0, "discharged": 0, "theorems": [], "failures": [], "log": ""}
-    if not os.path.exists(path):
-        res["failures"].append("missing theorem file " + path)
+    if not files:
+        res["failures"].append("missing theorem file for " + prop)
         return res
-    ok, out = build_lean([mod])
-    names = theorem_names(path)
+    mods = ["AcVerif.Theorems.%s" % f[:-5] for f in files]
+    mod = " ".join(mods)
+    ok, out = build_lean(mods)
+    names = []
+    for f in files:
+        names += theorem_names(os.path.join(tdir, f))
     res["obligations"] = len(names)
     if not ok:
         res["failures"].append("lake build %s failed" % mod)
@@ -117,14 +121,14 @@ def audit_theorems(prop):
     os.makedirs(WORK, exist_ok=True)
     aud = os.path.join(WORK, "Audit_%s.lean" % prop)
     with open(aud, "w") as f:
-        f.write("import %s\nopen AcVerif\n" % mod)
+        f.write("".join("import %s\n" % m for m in mods) + "open AcVerif\n")
         for n in names:
             f.write("#print axioms %s\n" % n)
     p = run(["lake", "env", "lean", aud], cwd=LEAN)
     txt = p.stdout + p.stderr
     res["log"] = txt[-4000:]
     # parse: "'name' depends on axioms: [a, b]" / "'name' does not depend on any axioms"
-    blocks = re.findall(r"'([^']+)' (does not depend on any axioms|depends on axioms: \[([^\]]*)\])", txt)
+    blocks = re.findall(r"'([^\s]+)' (does not depend on any axioms|depends on axioms: \[([^\]]*)\])", txt)
     seen = {}
     for name, _, axs in blocks:
         ax = set(a.strip() for a in axs.replace("\n", " ").split(",") if a.strip())
